@@ -118,8 +118,11 @@ def cases(seed, tier, shard, nshards):
         # a quarter of the documents is the second edition of a job: an earlier edition, with the same label names on other objects in
         # other files, was compiled in the same directory before (its job.paux is still there; it is not this run's business)
         earlier = None
-        if labels and r.random() < 0.25:
-            earlier = {'src': '\\documentclass{article}\\begin{document}\n' + '\n'.join('\\section{Old%dz}\\label{%s} Old text %d' % (k, l, k) for k, l in enumerate(reversed(labels))) + '\n\\end{document}\n',
+        if labels and r.random() < 0.3:
+            # (every old unit has sub-units of its own, so that tables of contents had entries below it)
+            earlier = {'src': '\\documentclass{%s}\\begin{document}\n' % d['cls'] + '\n'.join('\\%s{Old%dz}\\label{%s} Old text %d\n\\%s{OldSub%dz} Old sub text\n\\%s{OldSubSub%dz} t' % (
+                'chapter' if d['cls'] == 'book' else 'section', k, l, k, 'section' if d['cls'] == 'book' else 'subsection', k, 'subsection' if d['cls'] == 'book' else 'subsubsection', k)
+                for k, l in enumerate(reversed(labels))) + '\n\\end{document}\n',
                        'level': r.choice([2, 2, -10])}
         yield {'earlier': earlier, 'src': src, 'framed': framed, 'number_of': number_of, 'kind_of': kind_of, 'truth': c13.truth(d), 'label_unit': label_units(d),
                'level': r.choice([-10, -1, 0, 1, 1, 2, 2, 3, 4]), 'toc_depth': r.choice([0, 1, 2, 3, 3, 4]), 'toc_non_files': r.random() < 0.4,
